@@ -130,6 +130,74 @@ func (c *Ctx) packetLiterals() []pktLit {
 	return out
 }
 
+// cleartextHelperCallers: the packet literal's handshake message is a parameter of its function;
+// classify what each call site of the function passes for it.
+func (c *Ctx) cleartextHelperCallers(p pktLit) (ok bool, why string, sites int) {
+	idx := -1
+	if rec := allocOf(p.fields["Record"]); rec != nil {
+		if mi, isMI := litFields(rec)["Content"].(*ssa.MakeInterface); isMI {
+			hs := allocOf(mi.X)
+			if hs == nil {
+				for _, l := range c.Origins(mi.X, 0) {
+					if a, isA := l.(*ssa.Alloc); isA {
+						hs = a
+					}
+				}
+			}
+			if hs != nil {
+				if par, isP := litFields(hs)["Message"].(*ssa.Parameter); isP {
+					idx = paramIndex(par)
+				}
+			}
+		}
+	}
+	if idx < 0 {
+		return false, "", 0
+	}
+	ok = true
+	for _, s := range c.CallsToName(short(p.fn)) {
+		call, isCall := s.Call.(*ssa.Call)
+		if !isCall || !inModule(s.Fn) || idx >= len(call.Call.Args) {
+			return false, "the helper is used other than by a plain call at " + c.ipos(s.Call), sites + 1
+		}
+		sites++
+		is13 := strings.Contains(short(s.Fn), pkgF13+".") || strings.Contains(short(s.Fn), "internal/handshake.")
+		var ls []ssa.Value
+		seen := map[ssa.Value]bool{}
+		var expand func(x ssa.Value)
+		expand = func(x ssa.Value) {
+			x = unspill(x)
+			if seen[x] {
+				return
+			}
+			seen[x] = true
+			if phi, isPhi := x.(*ssa.Phi); isPhi {
+				for _, e := range phi.Edges {
+					expand(e)
+				}
+				return
+			}
+			ls = append(ls, x)
+		}
+		expand(call.Call.Args[idx])
+		for _, l := range ls {
+			mi, isMI := l.(*ssa.MakeInterface)
+			if !isMI {
+				ok, why = false, "message of unknown type at "+c.ipos(call)
+				continue
+			}
+			m := namedOf(mi.X.Type())
+			switch {
+			case m == "pkg/protocol/handshake.MessageFinished":
+				ok, why = false, "Finished at "+c.ipos(call)
+			case is13 && m != "pkg/protocol/handshake.MessageClientHello" && m != "pkg/protocol/handshake.MessageServerHello":
+				ok, why = false, "DTLS 1.3 "+strings.TrimPrefix(m, "pkg/protocol/handshake.")+" at "+c.ipos(call)
+			}
+		}
+	}
+	return ok, why, sites
+}
+
 // rulePacketLiterals (C07-1): every flight.Packet literal whose content must stay secret
 // requests encryption; DTLS 1.2 Finished is stamped epoch 1; alerts encrypt iff established.
 func rulePacketLiterals(c *Ctx, r *Report) {
@@ -168,7 +236,8 @@ func rulePacketLiterals(c *Ctx, r *Report) {
 			}
 		case "pkg/protocol/alert.Alert":
 			n++
-			ls := c.Origins(se, 0)
+			// a packet built by a private helper takes the flag from its callers
+			ls := c.OriginsIP(se, 0)
 			ok := allLeaves(ls, func(v ssa.Value) bool {
 				return isCallResult(v, func(nm string) bool {
 					return strings.HasSuffix(nm, ".isHandshakeCompletedSuccessfully") || strings.HasSuffix(nm, "Establishment).Established")
@@ -209,6 +278,14 @@ func rulePacketLiterals(c *Ctx, r *Report) {
 			continue
 		}
 		n++
+		if !seTrue && p.message == "param" && p.fields["ShouldEncrypt"] == nil {
+			// a helper for cleartext handshake messages: then every caller hands it a message
+			// that is cleartext by design (DTLS 1.2: anything but Finished; DTLS 1.3: the hellos)
+			if okH, whyH, sites := c.cleartextHelperCallers(p); sites > 0 {
+				r.Check(okH, rule, key, c.ipos(p.al), fmt.Sprintf("cleartext helper: all %d callers pass a message that is cleartext by design", sites), "a helper that builds unprotected handshake packets is handed a message that must be protected: "+whyH)
+				continue
+			}
+		}
 		r.Check(seTrue, rule, key, c.ipos(p.al), why+": ShouldEncrypt is the constant true", why+" packet literal without ShouldEncrypt: true (content would leave unprotected)")
 		if p.message == "pkg/protocol/handshake.MessageFinished" && strings.HasPrefix(short(p.fn), pkgF12) {
 			ep, isC := constInt(p.recField["Header.Epoch"])
